@@ -364,7 +364,7 @@ class TT():
         Returns:
             numpy.array: the full tensor in numpy.
         """
-        return self.full().cpu().numpy()
+        return self.full().cpu().resolve_conj().numpy()
 
     def __repr__(self):
         """
